@@ -193,6 +193,8 @@ def check_case(run, case, detail, tz, scratch, digests, warmup_ctx=None):
         pre = {c.get("code"): c for c in (ser.get("assertions") or {}).get("preconditions", [])}
         post = {c.get("code"): c for c in (ser.get("assertions") or {}).get("postconditions", [])}
         needed = [n for n, d in nm.params if n not in nm.config and d is rm.REQ]
+        # a component that advertises the legacy get_required_keys() hook declares those keys as expected as well
+        needed += [k for k in rm.HOOK_REQUIRED.get(nm.comp.name if nm.comp is not None else "", []) if k not in needed]
         cond = all(n in before for n in needed)
         rk = pre.get("required_keys_present")
         if rk is None or (rk.get("result") == "PASS") != cond:
